@@ -28,6 +28,11 @@ W_CHOICES = [[], ["-Wall"], ["-Wno-all"], ["-Wall", "-Wno-label-fixup"], ["-Wno-
              ["-Wno-undefined-symbol", "-Wno-value-out-of-bounds", "-Wno-wrong-operands"], ["-Wno-invalid-number", "-Wno-odd-address", "-Wno-io-error", "-Wno-unknown-insn"]]
 
 
+# identifiers that are issued both as a warning and as an error: (warning statement, error statement, -W selections that hide the warning)
+DUALS = {"implicit-accumulator": ("\tclrf r1", "\tclrf r6", [[], ["-Wall"], ["-Wno-implicit-accumulator"], ["-Wimplicit-accumulator"], ["-Wno-all"]]),
+         "excess-hash": ("\temt #1", "\t.word #1", [["-Wno-excess-hash"], ["-Wno-all"], ["-Wno-default"], [], ["-Wall"], ["-Wno-all", "-Wexcess-hash"]])}
+
+
 def plan(tier, seed):
     n = 16 if tier == "quick" else 48
     total = 400 if tier == "quick" else 20000
@@ -43,7 +48,13 @@ def gen_case(rnd, points):
     matrix = []
     for _ in range(points):
         matrix.append([rnd.choice(["bare", "graphical"]), rnd.choice(W_CHOICES)])
-    return {"seed": rnd.randrange(1 << 30), "faults": kinds, "warnings": wk, "selector": sel, "matrix": matrix, "preexisting": rnd.random() < 0.5}
+    case = {"seed": rnd.randrange(1 << 30), "faults": kinds, "warnings": wk, "selector": sel, "matrix": matrix, "preexisting": rnd.random() < 0.5}
+    if rnd.random() < 0.12:
+        # the same identifier first as a (possibly hidden) warning, later as an error
+        case["dual"] = rnd.choice(sorted(DUALS))
+        case["dual_order"] = rnd.choice(["warning-first", "warning-first", "error-first", "error-only"])
+        case["matrix"] = [[rnd.choice(["bare", "graphical"]), rnd.choice(DUALS[case["dual"]][2])] for _ in range(points)]
+    return case
 
 
 def run_shard(spec):
@@ -103,6 +114,20 @@ def run_case(case, cnt=None, root=None, idset=None):
             clicase.plant(host, rnd, f, where=rnd.choice(names))
         for k in case["warnings"]:
             clicase.plant(host, rnd, faults.render_warning(k, "\t"), where=rnd.choice(host["linked"]))
+        if case.get("dual"):
+            wl, el, _ = DUALS[case["dual"]]
+            first, last = host["linked"][0], host["linked"][-1]
+            order = case["dual_order"]
+            if order == "warning-first":
+                at = 1 if host["texts"][first] and host["texts"][first][0].lower().lstrip().startswith((".link", ". =", ".=")) else 0
+                host["texts"][first][at:at] = [wl, "\t.even"]
+                clicase.append_last(host, [el], last)
+            elif order == "error-first":
+                at = 1 if host["texts"][first] and host["texts"][first][0].lower().lstrip().startswith((".link", ". =", ".=")) else 0
+                host["texts"][first][at:at] = [el, "\t.even"]
+                clicase.append_last(host, [wl], last)
+            else:
+                clicase.append_last(host, [el], last)
         # dotted symbol names (legal identifiers) so that listings and diagnostics meet them
         if rnd.random() < 0.5:
             host["texts"][rnd.choice(host["linked"])].extend(["dot.ted = 5", "x.y.z = dot.ted + 1"])
@@ -151,7 +176,7 @@ def run_case(case, cnt=None, root=None, idset=None):
                 with open(os.path.join(work, p), "wb") as fh:
                     fh.write(b"PRECIOUS OLD CONTENT " + p.encode())
                 pre[p] = b"PRECIOUS OLD CONTENT " + p.encode()
-        has_fault = bool(case["faults"])
+        has_fault = bool(case["faults"]) or bool(case.get("dual"))
         results = []
         for pt, (fmt, wsel) in enumerate(case["matrix"]):
             # restore the directory to its initial state between option points
